@@ -6,6 +6,7 @@ C17 — model of utype's forward-reference machinery.
   ParserField.generate (string annotation → ForwardRef) utype/parser/field.py:1134-1147, 1306-1314
   BaseParser.resolve_forward_refs (lazy, first parse)  utype/parser/base.py:211-268, 342-345
   ClassParser.globals (self name injection)            utype/parser/cls.py:93-112
+  ClassParser.resolve_forward_refs / generate_from_bases utype/parser/cls.py:223-275 (one level)
   ForwardRef dereference at conversion time            utype/utils/transform.py:696-719
 
 Hand-written, branch for branch, after the three `fix:` patches fixes/C17-*.patch (the behaviour
